@@ -4,7 +4,9 @@ import (
 	"fmt"
 	"math"
 	"math/rand/v2"
+	"net/http"
 	"net/rpc"
+	"os"
 	"path/filepath"
 	"sort"
 	"strings"
@@ -29,7 +31,7 @@ func init() { fw.Register(c17{}) }
 func (c17) ID() string    { return "C17" }
 func (c17) Level() string { return "exploration" }
 func (c17) Rule() string {
-	return "unit = (deployment, request): deployments of 1..3 real nodes (RPC over loopback) x 1..6 shards per collection (forced by a small per-shard point limit); 80 requests per deployment rotate over the entry nodes: inserts (ids unique per collection), updates and deletes mixing stored / deleted / unknown ids, _id reads, filter searches, flat and vamana searches, searches with sort keys, limits and offsets; then one shard server is taken down and update / delete / search are issued again. One collection model for the whole deployment; the shard of every id is learned from per-shard reads. Refuted by: an _id read returning a stored point zero times or twice; sum of per-shard counts != model size; an update/delete failed list != requested - processed; 'not found' although a shard did not answer or 'shard unavailable' although all answered; a search with > limit results, a duplicate, a document or distance that disagrees with the model, hybrid / sort-key order violated; a filter-only search below every per-shard limit whose result set != model. Non-trivial = at least two shards on at least two servers hold matching points (or, on a single server, at least two shards); distinct by (topology, request)."
+	return "unit = (deployment, request): deployments of 1..3 real nodes (RPC over loopback) x 1..6 shards per collection (forced by a small per-shard point limit); 80 requests per deployment rotate over the entry nodes: inserts (ids unique per collection), updates and deletes mixing stored / deleted / unknown ids, _id reads, filter searches, flat and vamana searches, searches with sort keys, limits and offsets; then (a) an update is refused by one shard (merge over the point size limit), (b) in every second deployment one shard file is overwritten with noise and its server restarted, (c) one shard server is taken down; update / delete / search are issued again in each state. One collection model for the whole deployment; the shard of every id is learned from per-shard reads. Refuted by: an _id read returning a stored point zero times or twice; sum of per-shard counts != model size; an update/delete failed list != requested - processed; 'not found' although a shard did not answer or 'shard unavailable' although all answered; a search with > limit results, a duplicate, a document or distance that disagrees with the model, hybrid / sort-key order violated; a filter-only search below every per-shard limit whose result set != model. Non-trivial = at least two shards on at least two servers hold matching points (or, on a single server, at least two shards); distinct by (topology, request)."
 }
 func (c17) Assumptions() []string {
 	return []string{"with a node down a search may fail as a whole; a returned answer must still satisfy the invariants", "text scores use per-shard statistics and are not compared across shards", "offset semantics across shards are not part of the statement: only limit, duplicates, membership and order are judged"}
@@ -735,6 +737,109 @@ func (c17) RunCase(c fw.Case, env *fw.Env) *fw.CaseResult {
 		r.checkFailedList("update-refused-by-one-shard", failed.ids, want, failed.msgs, true, len(failed.ids) > 0)
 		r.checkIdReads(0, col, false, nil, nil)
 	}
+	// ---- one shard damaged while every server is up: the server that holds the most shards of the
+	// collection is stopped, one of its shard files is overwritten with noise, and it is started again.
+	// That shard cannot be opened any more and fails every request; its neighbours on the same server
+	// answer. Updates and deletes must fail exactly the ids of that shard (and unknown ones), never as
+	// 'not found'; reads find every other point exactly once.
+	damaged := map[string]bool{}
+	if okp && len(col.ShardIds) >= 2 && c.Idx%2 == 0 {
+		perServer := map[string][]string{}
+		for _, sid := range col.ShardIds {
+			srv := cluster.RendezvousHash(sid, servers, 1)[0]
+			perServer[srv] = append(perServer[srv], sid)
+		}
+		holds := map[string]int{}
+		for _, sid := range place {
+			holds[sid]++
+		}
+		k, ds := -1, ""
+		for i, n := range nodes {
+			mine := perServer[n.RPCAddr]
+			sort.Strings(mine)
+			cand := ""
+			for _, sid := range mine {
+				if holds[sid] > 0 {
+					cand = sid
+					break
+				}
+			}
+			if cand != "" && (k < 0 || len(mine) > len(perServer[nodes[k].RPCAddr])) {
+				k, ds = i, cand
+			}
+		}
+		if k >= 0 {
+			file := filepath.Join(env.Dir, fmt.Sprintf("node%d", k), "userCollections", r.user, r.colId, ds, "sharddb.bbolt")
+			if _, err := os.Stat(file); err != nil {
+				res.Note("damaged-shard scenario: %v", err)
+				res.Inconclusive++
+				return res
+			}
+			if err := nodes[k].Term(40 * time.Second); err != nil {
+				res.Violate("shutdown", "C17:shutdown", err.Error(), nil)
+				return res
+			}
+			noise := make([]byte, 32<<10)
+			for i := range noise {
+				noise[i] = byte(rng.Uint32())
+			}
+			os.WriteFile(file, noise, 0o644)
+			if err := nodes[k].Start(); err == nil {
+				err = nodes[k].WaitHTTP(30 * time.Second)
+				if err != nil {
+					res.Violate("restart", "C17:restart-with-damaged-shard", fmt.Sprintf("a server holding one unreadable shard file does not come up again: %v\n%s", err, tailStr(nodes[k].Log(), 1200)), nil)
+					return res
+				}
+			}
+			http.DefaultTransport.(*http.Transport).CloseIdleConnections()
+			damaged[ds] = true
+			res.Stat("deployments_with_a_damaged_shard", 1)
+			if len(perServer[nodes[k].RPCAddr]) >= 2 {
+				res.Stat("damaged_shard_had_neighbours_on_its_server", 1)
+			}
+			// directed requests: one id of the damaged shard, one of a neighbour on the same server,
+			// one from elsewhere, one unknown
+			pick := func() []uuid.UUID {
+				var inDs, neigh, other []uuid.UUID
+				for _, id := range r.m.SortedIds() {
+					switch sid := place[id]; {
+					case sid == ds:
+						inDs = append(inDs, id)
+					case cluster.RendezvousHash(sid, servers, 1)[0] == nodes[k].RPCAddr:
+						neigh = append(neigh, id)
+					default:
+						other = append(other, id)
+					}
+				}
+				out := []uuid.UUID{}
+				for _, l := range [][]uuid.UUID{inDs, neigh, other} {
+					if len(l) > 0 {
+						out = append(out, l[rng.IntN(len(l))])
+					}
+				}
+				out = append(out, r.g.NewId())
+				rng.Shuffle(len(out), func(a, b int) { out[a], out[b] = out[b], out[a] })
+				return out
+			}
+			for e := 0; e < len(nodes); e++ {
+				for _, fop := range []int{3, 4} {
+					forcedOp, forcedIds = fop, pick()
+					ok := step((nReq/len(nodes)+400)*len(nodes)+e, true, damaged, place)
+					forcedOp, forcedIds = -1, nil
+					res.Stat("directed_requests_with_a_damaged_shard", 1)
+					if !ok {
+						return res
+					}
+				}
+				r.checkIdReads(e, col, true, damaged, place)
+			}
+			for i := 0; i < 10; i++ {
+				if !step(nReq+2000+i, true, damaged, place) {
+					return res
+				}
+			}
+		}
+	}
 	// ---- one shard server down (a real process, killed)
 	if len(nodes) >= 2 && len(col.ShardIds) >= 2 && okp {
 		owner := cluster.RendezvousHash(r.user, servers, 1)[0]
@@ -759,6 +864,9 @@ func (c17) RunCase(c fw.Case, env *fw.Env) *fw.CaseResult {
 		}
 		if len(downShards) == 1 {
 			res.Stat("deployments_where_the_dead_server_held_exactly_one_shard", 1)
+		}
+		for sid := range damaged {
+			downShards[sid] = true
 		}
 		if r.downIdx >= 0 && len(downShards) < len(col.ShardIds) {
 			nodes[r.downIdx].Kill()
